@@ -29,6 +29,12 @@ theorem inputRequired_eq (required typed noneOk : Bool) :
     inputRequired required typed noneOk = (required && !(!typed || noneOk)) := by
   cases required <;> cases typed <;> cases noneOk <;> rfl
 
+/-- a dependency — eager or deferred — is asked of its source with *its own* requiredness (`ireq`), not with the consumer's:
+    the model's `rn src ireq` in `runParamsWith` and the `(p, src, ireq)` it stores for `forceLazy` -/
+theorem dependency_required_is_ireq (ireq required stored : Bool) :
+    eagerRunRequired ireq required = ireq ∧ deferredRunRequired ireq required = ireq ∧ deferredGetRequired stored = stored := by
+  cases ireq <;> cases required <;> cases stored <;> simp [eagerRunRequired, deferredRunRequired, deferredGetRequired]
+
 /-- a component bails out (no result, no error) exactly as the model's parameter loop does: an eager dependency came back `None`,
     the parameter does not accept `None`, and the component itself is not required -/
 theorem bailOut_iff (ival : LK.Py.V) (typed noneOk required : Bool) :
